@@ -26,3 +26,7 @@ func verifRoundTripDataProviderTuple(x *RelationTuple) (*RelationTuple, error) {
 }
 
 var _ = rts.NewSubjectID
+
+func verifRoundTripString(x *RelationTuple) (*RelationTuple, error) {
+	return (&RelationTuple{}).FromString(x.String())
+}
